@@ -178,4 +178,47 @@ def describe_inputs(harness):
 
 
 def run_smt(engine, repo, tier, scratch):
-    raise NotImplementedError(engine)
+    """Runs one SMT engine; returns its JSON result with violations already replayed."""
+    import json
+    import os
+    import subprocess
+    import sys
+
+    verif = os.path.dirname(os.path.dirname(os.path.abspath(__file__)))
+    script = {"tables": "tables.py", "bitwalk": "bitwalk.py"}[engine]
+    p = subprocess.run(["python3-vt", os.path.join(verif, "smt", script), repo, tier], stdout=subprocess.PIPE, stderr=subprocess.PIPE, text=True)
+    try:
+        r = json.loads(p.stdout)
+    except Exception:
+        return {"engine": engine, "obligations": 0, "discharged": 0, "violations": [], "samples": [],
+                "inconclusive": ["engine crashed: " + (p.stderr or p.stdout)[-800:]]}
+    if r.get("violations"):
+        sys.path.insert(0, os.path.join(verif, "lib"))
+        import runner
+
+        os.makedirs(os.path.join(verif, "replays", "smt"), exist_ok=True)
+        for i, v in enumerate(r["violations"]):
+            path = os.path.join(verif, "replays", "smt", "%s-%d.json" % (engine, i))
+            v["replay"] = path
+            v["reproduced"] = False
+            harness = v.get("replay_harness")
+            if engine == "tables" and not harness:
+                m = v.get("model", {})
+                vk = {"imm": "imm", "mut": "mut", "oimm": "oimm", "omut": "omut"}.get(m.get("v"))
+                ck = {"cimm": "imm", "cmut": "mut", "coimm": "oimm", "comut": "omut"}.get(m.get("c"))
+                if vk and ck:
+                    harness = "stagepair_q_c_%s_then_%s" % (ck, vk)
+            if harness:
+                # replay against the real code: rustc resolves brood's real impls for that pair of
+                # tasks and the harness compares the resulting stage structure with the reference
+                data, out, _ = runner.run_kani(scratch, [harness], 2, 600, "smt-replay-%d" % i)
+                dig = runner.summarise_kani(data, out)
+                v["replay_harness"] = harness
+                v["reproduced"] = any(h["status"] != "Success" and h["failed"] for h in dig.values())
+                v["replay_detail"] = {runner.short(k): [c["description"] for c in h["failed"]] for k, h in dig.items()}
+            else:
+                # structural finding about the table itself (missing/ambiguous row, merger, fold):
+                # the extracted row is the evidence; it is read straight from the source
+                v["reproduced"] = v.get("kind") in ("ambiguous", "merger", "inverse", "fold", "no missing row", "identifier view never cuts")
+            json.dump(v, open(path, "w"), indent=1)
+    return r
